@@ -190,6 +190,12 @@ fn atoms() -> Vec<Sx> {
         Sx::Float("1.5"),
         Sx::Float("-2.5"),
         Sx::Float("1.0e3"),
+        // sign x exponent sign: the minus of a negative literal is a separate Rust token, the
+        // minus of a negative exponent is part of the literal
+        Sx::Float("1e-7"),
+        Sx::Float("-1e-7"),
+        Sx::Float("-2.5e+3"),
+        Sx::Float("-1.0e21"),
         Sx::Str("s", "s"),
         Sx::Str("a b\\n\\\"q\\\\", "a b\\n\\\"q\\\\"),
         Sx::Str("λ€", "λ€"),
